@@ -369,6 +369,8 @@ class BV:
 
     def _project(self, base, e):
         k = e["k"]
+        if base[0] == "impossible":
+            return base
         if k == "deref":
             if base[0] == "ref":
                 return base[1]
@@ -381,7 +383,30 @@ class BV:
                 return mkphi(parts)
             return ("field", base, e.get("n", e["i"]), e["i"])
         if k == "downcast":
+            if base[0] == "call" and base[1] == "std::ops::Try::branch" and len(base[2]) == 1 and e.get("n") in ("Continue", "Break"):
+                # `x?` on a value built in place (an inlined helper's `Some(v)` / `None` / `Err(e)?`): the alternatives that take
+                # this arm, with their payload; the others are not read on this path
+                arg = base[2][0]
+                while arg[0] in ("ref", "deref"):
+                    arg = arg[1]
+                alts = arg[1] if arg[0] == "phi" else [arg]
+                if any(a[0] == "agg" and a[1] == "adt" and a[2].rsplit("::", 1)[-1] in ("Some", "Ok", "None", "Err") for a in alts):
+                    out = []
+                    for a in alts:
+                        vn = a[2].rsplit("::", 1)[-1] if a[0] == "agg" and a[1] == "adt" else None
+                        if vn in ("Some", "Ok"):
+                            out.append(("agg", "adt", "std::ops::ControlFlow::Continue", list(a[3]), ["0"]) if e["n"] == "Continue" else ("impossible",))
+                        elif vn in ("None", "Err"):
+                            out.append(("impossible",) if e["n"] == "Continue" else ("downcast", ("call", base[1], [a], base[3]), e.get("n", e["v"])))
+                        elif a[0] == "call" and a[1].endswith("FromResidual::from_residual"):
+                            out.append(("impossible",) if e["n"] == "Continue" else ("downcast", ("call", base[1], [a], base[3]), e.get("n", e["v"])))
+                        else:
+                            out.append(("downcast", ("call", base[1], [a], base[3]), e.get("n", e["v"])))
+                    return mkphi(out)
             if base[0] == "agg" and base[1] == "adt":
+                nm_ = e.get("n")
+                if nm_ is not None and "::" in base[2] and base[2].rsplit("::", 1)[1] != nm_ and base[2].rsplit("::", 1)[0].rsplit("::", 1)[-1] != nm_:
+                    return ("impossible",)  # payload of another variant: only read on a path this alternative does not take
                 return base  # the variant is known from the aggregate itself
             if base[0] == "phi":
                 return mkphi([self._project(b, e) for b in base[1]])
@@ -467,6 +492,9 @@ def mkphi(parts):
     nonrec = [p for p in flat if p[0] != "rec"]
     if nonrec:
         flat = nonrec
+    possible = [p for p in flat if p[0] != "impossible"]
+    if possible:
+        flat = possible
     if len(flat) == 1:
         return flat[0]
     return ("phi", flat)
